@@ -14,12 +14,14 @@ import OdmlModel.Proofs.PathRel
 import OdmlModel.Proofs.PathIter
 import OdmlModel.Proofs.PathMem
 import OdmlModel.Proofs.PathRelated
+import OdmlModel.Model.PathName
+import OdmlModel.Proofs.PathName
 
 set_option linter.unusedSimpArgs false
 set_option linter.unusedVariables false
 
 namespace C14
-open PathTree Path Py Py.Posix
+open PathTree Path Py Py.Posix PathName
 
 /-! ## 1. Absolute paths -/
 
@@ -607,6 +609,117 @@ theorem mixed_folding_counterexample :
     find lw d [] none (some ['s']) false false = .one [0] ∧
     Found.ofList false (findAllIn lw [] none (some (fold ['s'])) false 0 d.secs) = .none := by
   decide
+
+/-! ## 5c. The hypothesis "sibling names are pairwise distinct" is kept by the name setter
+(added after seeded round 5; model `Model/PathName.lean`, tied to /repo by the stream `setname`) -/
+
+/-- The name setter keeps the sibling names pairwise distinct, whatever it is given (a name, `None`,
+    `""`), whatever the id of the object is - also when the id is the name of a sibling. -/
+theorem set_name_keeps_distinct (sibs : List Str) (i : Nat) (oid : Str) (new : Option Str)
+    (r : List Str) (hd : distinct sibs = true) (h : setName sibs i oid new = .ok r) :
+    distinct r = true := by
+  unfold setName at h
+  split at h
+  · cases h; exact hd
+  · split at h
+    · cases h; exact hd
+    · split at h
+      · cases h; exact hd
+      · split at h
+        · cases h
+        · rename_i hc
+          cases h
+          exact distinct_set sibs i _ hd (by simpa using hc)
+
+
+/-- ... and plain (inside the property's quantifier), provided the id and a non-empty given name are. -/
+theorem set_name_keeps_plain (sibs : List Str) (i : Nat) (oid : Str) (new : Option Str)
+    (r : List Str) (hp : sibs.all plainName = true) (hid : plainName oid = true)
+    (hnew : ∀ n, new = some n → n ≠ [] → plainName n = true)
+    (h : setName sibs i oid new = .ok r) : r.all plainName = true := by
+  have hst : plainName (stored oid new) = true := by
+    unfold stored
+    cases new with
+    | none => simpa [falsy] using hid
+    | some n =>
+      by_cases hn : n = []
+      · simpa [falsy, hn] using hid
+      · have : (n == []) = false := by simpa using hn
+        simpa [falsy, this] using hnew n rfl hn
+  unfold setName at h
+  split at h
+  · cases h; exact hp
+  · split at h
+    · cases h; exact hp
+    · split at h
+      · cases h; exact hp
+      · split at h
+        · cases h
+        · cases h; exact all_plain_set sibs i _ hp hst
+
+/-- What the setter stores: the given name, or the id when the given name is `None` / `""`; the other
+    entries of the child list keep their names and places (the current name is not empty: the setter
+    never stores an empty one). -/
+theorem set_name_stores (sibs : List Str) (i : Nat) (oid : Str) (new : Option Str) (r : List Str)
+    (hi : i < sibs.length) (hne : sibs[i] ≠ []) (h : setName sibs i oid new = .ok r) :
+    r = sibs.set i (stored oid new) := by
+  unfold setName at h
+  have hget : sibs[i]? = some sibs[i] := List.getElem?_eq_getElem hi
+  rw [hget] at h
+  simp only at h
+  split at h
+  · rename_i hc
+    cases h
+    have hf : (sibs[i] == []) = false := by simpa using hne
+    have : stored oid new = sibs[i] := by
+      rw [hc]; simp [stored, falsy, hf]
+    rw [this]; simp
+  · split at h
+    · rename_i hc
+      cases h
+      simp only [Bool.and_eq_true, beq_iff_eq] at hc
+      rw [← hc.2]; simp
+    · split at h
+      · cases h
+      · cases h; rfl
+
+/-- The first clause of the property after a rename: a forest whose top-level names are what the setter
+    leaves (`l'` = `l` with entry `i` renamed; nothing below a Section depends on its own name) is well
+    formed and path safe again, so every path theorem applies to it. -/
+theorem set_name_keeps_wf (l l' : List Sec) (i : Nat) (oid : Str) (new : Option Str)
+    (hw : wfForest l = true) (hbelow : wfList l' = true)
+    (hid : plainName oid = true) (hnew : ∀ n, new = some n → n ≠ [] → plainName n = true)
+    (h : setName (l.map (·.name)) i oid new = .ok (l'.map (·.name))) : wfForest l' = true := by
+  simp only [wfForest, Bool.and_eq_true] at hw ⊢
+  exact ⟨⟨hbelow, set_name_keeps_plain _ i oid new _ hw.1.2 hid hnew h⟩,
+    set_name_keeps_distinct _ i oid new _ hw.2 h⟩
+
+/-- ... in particular: after `child.name = new` on a top-level Section of a well-formed Document every
+    Section is found again by its path, from the Document and from every Section. -/
+theorem paths_resolve_after_set_name (d d' : Doc) (i : Nat) (oid : Str) (new : Option Str)
+    (hw : d.wf = true) (hbelow : wfList d'.secs = true)
+    (hid : plainName oid = true) (hnew : ∀ n, new = some n → n ≠ [] → plainName n = true)
+    (h : setName (d.secs.map (·.name)) i oid new = .ok (d'.secs.map (·.name)))
+    (cur p : Pos) (s : Sec) (hp : secAt d'.secs p = some s) :
+    ∃ path, getPath d' p = some path ∧ getSectionByPath d' cur path = .ok p :=
+  abs_path_resolves d' (set_name_keeps_wf d.secs d'.secs i oid new hw hbelow hid hnew h) cur p s hp
+
+/-- The order of the two steps matters (the change seeded in round 5): with the sibling check on the
+    value as given and the fall-back to the id in the final assignment, clearing the name of an object
+    whose id is the name of a sibling yields two siblings of one name; the setter as it is refuses. -/
+theorem late_fallback_counterexample :
+    let sibs : List Str := [['s'], ['i', 'd']]
+    setNameLate sibs 0 ['i', 'd'] none = .ok [['i', 'd'], ['i', 'd']] ∧
+    distinct [['i', 'd'], ['i', 'd']] = false ∧
+    setName sibs 0 ['i', 'd'] none = .keyError ∧
+    setName sibs 0 ['i', 'd'] (some []) = .keyError := by
+  decide
+
+/-- the hypotheses are satisfiable, and the setter does rename / fall back / refuse -/
+example : setName [['a'], ['b']] 0 ['i'] (some ['c']) = .ok [['c'], ['b']] ∧
+    setName [['a'], ['b']] 0 ['i'] none = .ok [['i'], ['b']] ∧
+    setName [['a'], ['b']] 0 ['i'] (some ['b']) = .keyError ∧
+    setName [['i'], ['b']] 0 ['i'] (some []) = .ok [['i'], ['b']] := by decide
 
 /-! ## 6. The hypotheses are satisfiable (non-vacuity) -/
 
